@@ -95,6 +95,8 @@ def check_body(res, prop, cm, roles, m, k, b):
     seg = b.seg
     case = body_case(cm, roles, k, b)
     sim = simulate(seg, roles)
+    if sim.infeasible:
+        return          # the path's own position tests contradict each other: it cannot be taken
     val = ' '.join(seg.valuation())
     moves = seg.effs('MOVE')
     res.sample(dict(container=cm.name, method=b.where, case=case, valuation=val, final_list=sim.show()), cap=12)
